@@ -15,6 +15,8 @@ for p in sorted(glob.glob("/verif/seeded/*/meta.json")):
     by = r["caught_by"]
     sig = "; ".join("`%s`" % s for s in r["checks"][by]["signatures"][:2]) if by else ""
     note = by or "**missed**"
+    if not by and r.get("expected_miss"):
+        note = "not caught (out of reach: %s)" % r["expected_miss"]
     if by and by != m["property"]:
         note = "%s (sister check; own check silent)" % by
     print("| %s | %s | %s | %s |" % (m["id"], m["breaks"][:110].replace("|", "/"), note, sig.replace("|", "\\|")))
